@@ -371,6 +371,10 @@ func (g *uciGen) during(w *uciWorld) {
 	c.steps++
 	if g.cfg.SweepStop > 0 && !c.stopSent && !c.swept {
 		// systematic placement: run the search to exactly poll SweepStop, then send the command
+		if w.hazard && w.hasPend {
+			g.queue = append(g.queue, UStep{Op: "grant"})
+			return
+		}
 		if w.parked && w.cur != nil {
 			if left := g.cfg.SweepStop - 1 - w.curPolls(); left > 0 {
 				g.queue = append(g.queue, UStep{Op: "run", Polls: left})
@@ -425,6 +429,11 @@ func (g *uciGen) during(w *uciWorld) {
 		f func()
 	}
 	var opts []opt
+	if w.hazard && w.hasPend {
+		// only writes can be granted until the interrupt goroutine is back in its select
+		g.queue = append(g.queue, UStep{Op: "grant"})
+		return
+	}
 	if w.hasPend && g.stall == 0 {
 		opts = append(opts, opt{4, func() { g.queue = append(g.queue, UStep{Op: "grant", N: 1 + r.IntN(2)}) }})
 	}
